@@ -252,7 +252,7 @@ fn make_entry(name: &str, bytes: Vec<u8>, home: &[u32], weight: u32, kind: &'sta
     })
 }
 
-const NC_FONTS: u64 = 36;
+const NC_FONTS: u64 = 48;
 
 /// feature selections over a font's own feature tags: everything as a custom list, everything
 /// as a mask, and two halves as custom lists
@@ -1145,7 +1145,10 @@ fn check_on_entry(e: &FontEntry, case: &Case, rec: &mut Rec) -> CaseResult {
     let history: Vec<Op> = case.history.iter().map(|s| resolve(e, s, &case.probe)).collect();
     let sampled = if history.is_empty() { None } else { Some(pick(history.len(), case.sample)) };
     let mutated: Option<(Vec<u8>, Vec<String>)> = match &case.mutation {
-        Some(m) if !e.sites.tables.is_empty() => Some(mutate(&e.bytes, &e.sites, m)),
+        // the generated fonts with layout tables beyond 64 KiB are not mutated: one corrupt ScriptList offset in such
+        // a table makes allsorts' eager ScriptList/LangSys parse allocate gigabytes (DESIGN §8.13) — resource use is
+        // C01/C02's subject, and here it only turns runs inconclusive
+        Some(m) if !e.sites.tables.is_empty() && !(e.name.starts_with("generated:noncanonical-") && e.bytes.len() > 100_000) => Some(mutate(&e.bytes, &e.sites, m)),
         _ => None,
     };
     match &mutated {
